@@ -1,9 +1,9 @@
 (* C16 — handler.Positional, Args, Obj: positional and keyed decoding are exact.
    This file only restates the property theorems; the model is hand/Handler.v, the proofs are in
-   hand/HandlerProofs.v, hand/HandlerExtra.v and hand/PosElem.v.  encoding/json is not modelled:
+   hand/HandlerProofs.v, hand/HandlerExtra.v, hand/PosElem.v and hand/HandlerMore.v.  encoding/json is not modelled:
    `decode`, `zero`, `decode_elt`, `decode_into`, `encode` are universally quantified oracles. *)
-From Coq Require Import List NArith Bool.
-From JV Require Import Bytes Handler HandlerProofs HandlerExtra PosElem.
+From Coq Require Import List NArith Bool Arith.
+From JV Require Import Bytes Handler HandlerProofs HandlerExtra PosElem HandlerMore.
 Import ListNotations.
 
 (* Positional(func(ctx, X1..Xn), names), n >= 1, usable names.  Under the documented contract
@@ -12,7 +12,7 @@ Import ListNotations.
    that addresses no argument twice: the function is called once, with element i decoded into
    Xi, iff the params are an array of exactly n decodable elements (decode_each; decode_elt X e
    stands for decoding e into a fresh variable of type X with DisallowUnknownFields, which
-   encoding/json applies at every depth; null is whatever decode_elt makes of it), or an object using only the given names, matched as
+   encoding/json applies at every depth; null is whatever decode_elt makes of it: c16_null_allowed), or an object using only the given names, matched as
    encoding/json matches, with decodable values, missing names leaving zero values (fill);
    absent/null params give zero values; everything else is InvalidParams without a call. *)
 Theorem c16_positional_accepts_exactly :
@@ -32,6 +32,98 @@ Theorem c16_positional_accepts_exactly :
     end.
 Proof. exact positional_elementwise. Qed.
 Print Assumptions c16_positional_accepts_exactly.
+
+(* ONE call of a Positional handler wrapping f (`handle`: the inputs of all calls of f, and the
+   handler's return value): under the same contract f is called exactly once, with the values
+   pos_args spells out (zero values for absent/null params, element i decoded into Xi for an
+   array, the keyed values for an object), and the handler returns decode_out of the result and
+   error of that call; or f is not called and the handler returns InvalidParams. *)
+Theorem c16_handle_once :
+  forall (decode : ty -> bool -> pvalue -> option value) (zero : ty -> value)
+         (decode_elt : ty -> elt -> option value) (R E : Type) xs outs names fi p
+         (f : call_input -> R * option E),
+    struct_contract decode zero decode_elt -> zero_contract zero ->
+    xs <> [] -> usable_names names = true ->
+    positional (FFunc (TCtx :: xs) false outs) names = Ok fi ->
+    plain_params names p = true ->
+    handle decode zero fi p f =
+    match pos_args decode_elt zero names xs p with
+    | Some args => ([InArgs args], RReturn (decode_out fi (fst (f (InArgs args))) (snd (f (InArgs args)))))
+    | None => ([], RInvalidParams)
+    end.
+Proof. exact (fun decode zero decode_elt R E => @positional_handle decode zero decode_elt R E). Qed.
+Print Assumptions c16_handle_once.
+
+(* The same as an equivalence with declarative conditions: the call happens, with the arguments
+   args, iff the params are absent or null and args are the zero values; or an array of exactly n
+   elements, element i decoding into Xi to args_i; or an object using only the given names
+   (match_field: the name itself, else the first name equal ignoring ASCII case - how encoding/json
+   matches keys to fields), each value decoding into the argument of its name and the arguments
+   no key names being zero.  In every other case, and only then, the answer is InvalidParams. *)
+Theorem c16_positional_accepts_iff :
+  forall (decode : ty -> bool -> pvalue -> option value) (zero : ty -> value)
+         (decode_elt : ty -> elt -> option value) xs outs names fi p,
+    struct_contract decode zero decode_elt -> zero_contract zero ->
+    xs <> [] -> usable_names names = true ->
+    positional (FFunc (TCtx :: xs) false outs) names = Ok fi ->
+    plain_params names p = true ->
+    (forall args,
+       wrap decode zero fi p = OCall args <->
+       ((p = PAbsent \/ p = PNull) /\ args = map zero xs) \/
+       (exists es, p = PArray es /\ length es = length xs /\ length args = length xs /\
+          forall i e, nth_error es i = Some e ->
+            exists v, decode_elt (nth i xs TAny) e = Some v /\ nth_error args i = Some v) \/
+       (exists kvs, p = PObject kvs /\ length args = length xs /\
+          (forall k e, In (k, e) kvs ->
+             exists i v, match_field names k = Some i /\ decode_elt (nth i xs TAny) e = Some v /\
+                         nth_error args i = Some v) /\
+          (forall i, i < length xs -> (forall k e, In (k, e) kvs -> match_field names k <> Some i) ->
+             nth_error args i = Some (zero (nth i xs TAny))))) /\
+    ((forall args, wrap decode zero fi p <> OCall args) <-> wrap decode zero fi p = OInvalidParams).
+Proof. exact positional_accepts_iff. Qed.
+Print Assumptions c16_positional_accepts_iff.
+
+(* 'null allowed'.  null_contract: decoding the element `null` into a fresh variable of any type
+   reports no error and leaves the zero value (encoding/json: null sets interfaces, maps, pointers
+   and slices to nil and "otherwise has no effect"; an assumption on the element oracle).  Then an
+   array of n nulls is accepted with all-zero arguments; putting null in place of any element of
+   an accepted array keeps it accepted, that argument becoming the zero value and the others
+   staying; a null element / a null value under a name leaves the zero value in its argument. *)
+Theorem c16_null_allowed :
+  forall (decode : ty -> bool -> pvalue -> option value) (zero : ty -> value)
+         (decode_elt : ty -> elt -> option value),
+    null_contract decode_elt zero ->
+    forall xs outs names fi,
+    struct_contract decode zero decode_elt -> zero_contract zero ->
+    xs <> [] -> usable_names names = true ->
+    positional (FFunc (TCtx :: xs) false outs) names = Ok fi ->
+    wrap decode zero fi (PArray (repeat null_elt (length xs))) = OCall (map zero xs) /\
+    (forall es args i,
+       wrap decode zero fi (PArray es) = OCall args ->
+       wrap decode zero fi (PArray (set_nth i null_elt es)) = OCall (set_nth i (zero (nth i xs TAny)) args)) /\
+    (forall es args i,
+       wrap decode zero fi (PArray es) = OCall args -> nth_error es i = Some null_elt ->
+       nth_error args i = Some (zero (nth i xs TAny))) /\
+    (forall kvs args k i,
+       plain_params names (PObject kvs) = true ->
+       wrap decode zero fi (PObject kvs) = OCall args ->
+       In (k, null_elt) kvs -> match_field names k = Some i -> i < length xs ->
+       nth_error args i = Some (zero (nth i xs TAny))).
+Proof. exact positional_null. Qed.
+Print Assumptions c16_null_allowed.
+
+(* ... and with no assumption on the oracle, for all name lists and all params: one call with
+   decoded arguments (never the request), or no call and InvalidParams *)
+Theorem c16_handle_shape :
+  forall (decode : ty -> bool -> pvalue -> option value) (zero : ty -> value) (R E : Type)
+         xs outs names fi p (f : call_input -> R * option E),
+    xs <> [] -> positional (FFunc (TCtx :: xs) false outs) names = Ok fi ->
+    (exists args, handle decode zero fi p f =
+       ([InArgs args], RReturn (decode_out fi (fst (f (InArgs args))) (snd (f (InArgs args))))) /\
+       wrap decode zero fi p = OCall args) \/
+    (handle decode zero fi p f = ([], RInvalidParams) /\ wrap decode zero fi p = OInvalidParams).
+Proof. exact (fun decode zero R E => @positional_handle_shape decode zero R E). Qed.
+Print Assumptions c16_handle_shape.
 
 (* what decode_each and fill say *)
 Theorem c16_array_exact_length :
@@ -140,6 +232,20 @@ Theorem c16_args_marshal :
 Proof. exact (fun encode a => conj (args_marshal_spec encode a) (args_marshal_empty encode)). Qed.
 Print Assumptions c16_args_marshal.
 
+(* Args.MarshalJSON position by position: the result is an array with one element per target,
+   element i being the encoding of target i and `null` for a nil slot; it fails iff the encoding
+   of some target fails *)
+Theorem c16_args_marshal_elementwise :
+  forall (encode : ty -> value -> option elt) a,
+    (forall p, args_marshal encode a = Some p <->
+       exists es, p = PArray es /\ length es = length a /\
+         forall i s, nth_error a i = Some s ->
+           nth_error es i = match s with None => Some null_elt | Some (T, v) => encode T v end) /\
+    (args_marshal encode a = None <->
+       exists i T v, nth_error a i = Some (Some (T, v)) /\ encode T v = None).
+Proof. exact args_marshal_elementwise. Qed.
+Print Assumptions c16_args_marshal_elementwise.
+
 Theorem c16_args_roundtrip :
   forall (decode_into : ty -> value -> elt -> bool * value) (encode : ty -> value -> option elt) a b p,
     Forall2 (roundtrips decode_into encode) a b -> args_marshal encode a = Some p ->
@@ -187,9 +293,51 @@ Theorem c16_obj_frame :
 Proof. exact obj_unmarshal_keys. Qed.
 Print Assumptions c16_obj_frame.
 
-(* One Positional handler used for many requests answers every request by itself (what the
-   answer is: c16_positional_accepts_exactly / c16_positional_wrap); nothing decoded for an
-   earlier or a concurrent request - accepted or rejected - can show up in a call. *)
+(* 'touches no other target', success or failure, any visiting order: when the params are not an
+   object (or null) the call fails and every target is as before; otherwise a target whose key is
+   absent from the JSON object is untouched *)
+Theorem c16_obj_untouched_any :
+  forall (decode_into : ty -> value -> elt -> bool * value) ord o p ok o',
+    obj_unmarshal decode_into ord o p = (ok, o') ->
+    (as_object p = None -> ok = false /\ o' = o) /\
+    (forall base k, as_object p = Some base -> last_value k base = None -> cell_get k o' = cell_get k o).
+Proof. exact obj_unmarshal_untouched. Qed.
+Print Assumptions c16_obj_untouched_any.
+
+(* What a FAILED Obj.UnmarshalJSON leaves behind, whatever the order in which the map was visited
+   (ord: duplicate-free, keys of the map): a state obj_failure_admissible accepts - the predicate
+   the correspondence check holds the real code to.  It says: some key kf of the map fails (nil
+   target, or its decode fails) and its target holds what the failed decode left; every other
+   target holds its old value or the result of its own successful decode; targets whose key is
+   absent from the JSON object hold their old value. *)
+Theorem c16_obj_failure_admissible :
+  forall (decode_into : ty -> value -> elt -> bool * value) ord o p o',
+    NoDup (map fst o) -> NoDup ord -> (forall k, In k ord -> In k (map fst o)) ->
+    obj_unmarshal decode_into ord o p = (false, o') ->
+    obj_failure_admissible decode_into o p o' = true.
+Proof. exact obj_failure_is_admissible. Qed.
+Print Assumptions c16_obj_failure_admissible.
+
+(* Calls of one Positional handler do not interfere: it decodes into a scratch variable of the
+   synthetic struct type, one per call; under any interleaving sch of the steps of the calls for
+   the requests ps (the machine `mrun` of hand/HandlerMore.v, see c15_calls_do_not_interfere) a
+   call that has finished finished with wrap's answer to its own params (what that answer is:
+   c16_positional_accepts_exactly / c16_positional_wrap), and three steps finish it. *)
+Theorem c16_calls_do_not_interfere :
+  forall (decode : ty -> bool -> pvalue -> option value) (zero : ty -> value) xs outs names fi ps sch,
+    xs <> [] -> positional (FFunc (TCtx :: xs) false outs) names = Ok fi ->
+    scratch_type fi = Some (pos_struct names xs) /\
+    forall i p, nth_error ps i = Some p ->
+      (forall o, nth_error (m_pcs (mrun decode zero fi false ps sch)) i = Some (PcDone o) ->
+         o = wrap decode zero fi p) /\
+      (3 <= count_occ Nat.eq_dec sch i ->
+         nth_error (m_pcs (mrun decode zero fi false ps sch)) i = Some (PcDone (wrap decode zero fi p))).
+Proof. exact positional_no_interference. Qed.
+Print Assumptions c16_calls_do_not_interfere.
+
+(* A fact about `map` (serve is defined as `map (wrap fi)`; the premise is not used): it holds of
+   every function and carries no information about the code.  The statement with content is
+   c16_calls_do_not_interfere. *)
 Theorem c16_calls_independent :
   forall (decode : ty -> bool -> pvalue -> option value) (zero : ty -> value) xs outs names fi ps1 p ps2,
     positional (FFunc (TCtx :: xs) false outs) names = Ok fi ->
